@@ -28,6 +28,10 @@ Fixpoint py_format (pieces : list str) (args : list str) : str :=
   | [], _ => []
   end.
 
+(* len(set(l)) for a list of numbers; the truth value of a list *)
+Definition py_distinct_count (l : list nat) : nat := length (nodup Nat.eq_dec l).
+Definition py_nonempty_list {A} (l : list A) : bool := match l with [] => false | _ => true end.
+
 (* s.rsplit(c, 1)[0] *)
 Definition py_rsplit1_head (c : ascii) (s : str) : str := join_with c (removelast (split_on c s)).
 
